@@ -11,6 +11,7 @@ import Rare.Proofs.C05Signal
 import Rare.Proofs.C05Logger
 import Rare.Proofs.C05Close
 import Rare.Proofs.C05CloseProg
+import Rare.Proofs.C05CloseInv
 import Rare.Proofs.C05SignalTrace
 import Rare.Proofs.C05HB
 /-!
@@ -418,6 +419,23 @@ theorem close_program_complete (skel : List String)
     · exact close_exit_block_from_source.2
   rw [he] at hr
   exact C05Prog.closed_status_complete fs hr hc
+
+/-- **While the readers run** (every reachable state, not only the closed ones): the byte counter of the status line
+    is never ahead of the bytes that have been handed to the batch channel (`incReadBytes` follows its send: with an
+    unbuffered channel the consumer has received at least `readBytes` bytes – op `closeord`, field `ahead`), and
+    listed-as-active plus counted-as-read never exceeds the number of sources (no source is shown in both roles or
+    counted twice). -/
+theorem close_running_status_bounds (skel : List String)
+    (hsk : skel = Gen.Skeleton.openFilesToChan ∨ skel = Gen.Skeleton.tailFilesToChan)
+    (fs : List C05Prog.Src) {s : C05Prog.St}
+    (hr : C05Prog.Reach (C05Prog.init (fs.map (C05Prog.prog (C05Prog.exitOf skel)))) s) :
+    C05Prog.readBytes s ≤ C05Prog.sentBytes s ∧ C05Prog.active s + C05Prog.readCount s ≤ fs.length := by
+  have he : C05Prog.exitOf skel = [.stop, .done] := by
+    rcases hsk with rfl | rfl
+    · exact close_exit_block_from_source.1
+    · exact close_exit_block_from_source.2
+  rw [he] at hr
+  exact C05Prog.running_status_bounds [.stop, .done] (by simp) fs hr
 
 /-- Boundary, for EVERY set of sources: with the exit block in the order before /repo 7025f4b (`wg.Done()`, then
     `stopFileReading`) there is a run that closes the channel while every opened source is still listed as active
